@@ -1900,12 +1900,18 @@ class PyCdlib:
             data_fp.seek(8, os.SEEK_CUR)
             bi_table = eltorito.EltoritoBootInfoTable()
             if bi_table.parse(self.pvd, data_fp.read(eltorito.EltoritoBootInfoTable.header_length()), ino):
-                data_fp.seek(-24, os.SEEK_CUR)
+                # The rest of the table is 40 bytes of zero padding.
+                padding = data_fp.read(40)
+                data_fp.seek(-64, os.SEEK_CUR)
                 # Do a final check to make sure the checksum matches.
                 csum = self._calculate_eltorito_boot_info_table_csum(data_fp,
                                                                      data_len)
 
-                if csum == bi_table.csum:
+                # The table also records the length of the file.  If that is
+                # not the length of this file, or the padding is not zero,
+                # these bytes are file contents that merely look like a table
+                # (and writing a table over them would change the file).
+                if csum == bi_table.csum and bi_table.orig_len == data_len and padding == b'\x00' * 40:
                     ino.add_boot_info_table(bi_table)
 
         self._cdfp.seek(orig)
